@@ -334,9 +334,34 @@ def run(ctx):
                     if vals[0] != ("in", pname):
                         probs.append("from_slice does not receive the whole input: " + fmt_n(vals[0])[:100])
                 from interp import peel
-                root = peel(x.ret)
-                if not (isinstance(root, tuple) and root[0] == "call" and root[1].startswith(callee.rsplit("::", 1)[0])):
+                mod_ = callee.rsplit("::", 1)[0]
+                def is_call(t_):
+                    t_ = peel(t_)
+                    return isinstance(t_, tuple) and t_ and t_[0] == "call" and t_[1].startswith(mod_)
+                if is_call(x.ret):
+                    continue          # serde_json's own Result, through Ok/Err-preserving plumbing
+                # or written out: branch on serde_json's verdict, Ok(wrapper(its Ok value)) / Ok(()) on its Ok edge, Err on its Err edge
+                gd = [g for g in x.path.guards if isinstance(g["cond"], tuple) and g["cond"][0] == "discr" and is_call(g["cond"][1])]
+                if not gd:
                     probs.append("result is not serde_json's result passed through")
+                    continue
+                took_ok = gd[-1]["value"] == 0
+                if x.okness is None or (x.okness is True) != took_ok:
+                    probs.append("result is not serde_json's verdict: " + ("Ok returned on its Err edge" if x.okness else "Err returned on its Ok edge"))
+                    continue
+                if x.okness is True:
+                    pay = r.interp.okv(None, x.path, x.ret)
+                    if callee.endswith("to_writer"):
+                        if pay != ("agg", "tuple", ()):
+                            probs.append("encode does not return Ok(()) on serde_json's Ok edge")
+                    else:
+                        inner = pay[2][0] if (isinstance(pay, tuple) and pay[0] == "agg" and pay[1].startswith("adt:") and len(pay[2]) == 1) else pay
+                        if not (isinstance(inner, tuple) and inner and inner[0] in ("okv", "ok") and is_call(inner[1])):
+                            probs.append("decoded value is not serde_json's Ok value (wrapped): " + fmt_n(r.norm.n(pay))[:120])
+                else:
+                    ev_ = r.interp.errv(x.path, x.ret)
+                    if not subterms(ev_, lambda q: q and q[0] == "errv" and is_call(q[1])):
+                        probs.append("the error returned is not derived from serde_json's error")
             if "Footer>::decode" in k:
                 # empty footer -> Err
                 emp = [x for x in rets if x.okness is False and not [e for e in x.path.events if e["kind"] == "call" and (e.get("path") or "").startswith("serde_json::")]]
